@@ -11,11 +11,13 @@
    all inside or all outside the segment) and EVERY order in which Traversal.each may hand the nodes to Table.add,
    compilation succeeds and the emitted table is accepted by the validator - hence (with (2)) it evaluates at every
    node to the graph value and at the committer to the trained states at their list positions.
-   What remains outside the theorems: the tie between this model and forml/flow/_code/compiler.py (symbol-for-symbol
-   comparison on every generated segment), the traversal itself (the visiting order is an arbitrary permutation here,
-   recorded from the real run there) and the runners that execute the table (C02). *)
+   (5) The traversal feeding the compiler (Model/C01Each.v, span.py Traversal.each) is modelled too and must reproduce the
+   recorded order of Table.add calls exactly on every generated segment; it is proved duplicate-free and in range.
+   What remains outside the theorems: the tie between these models and the code (symbol-for-symbol comparison of the
+   table and element-for-element comparison of the traversal on every generated segment), that the traversal reaches
+   every node of a connected segment (computed per case), and the runners that execute the table (C02). *)
 Require Import List Bool ZArith.
-From FV Require Import Lib.Sym Model.C01 Proofs.C01 Model.C01Compile Proofs.C01Compile Proofs.C01Main.
+From FV Require Import Lib.Sym Model.C01 Proofs.C01 Model.C01Compile Proofs.C01Compile Proofs.C01Main Model.C01Each Proofs.C01Each.
 Import ListNotations.
 
 (* every task is evaluated exactly once, and later tasks never change what earlier ones produced *)
@@ -100,6 +102,21 @@ Proof.
   intros l c Ha Hf. exact (commit_sound a nodes t l c Ha Hv Hc Hf).
 Qed.
 Print Assumptions C01_compile_dataflow.
+
+(* the segment traversal (Model/C01Each.v: Traversal.each - depth-first over the subscriptions, output ports in index order,
+   each port's subscriptions in the order they were made, only trained subscribers followed at the tail) hands no node to
+   the compiler twice and only nodes of the segment; so a well-formed graph all of whose nodes it reaches compiles
+   correctly in the traversal's own order. PARTIAL: that it reaches every node of a connected segment is not proved - the
+   length hypothesis is computed for every generated segment *)
+Theorem C01_traversal_partial : forall a nodes conn tail,
+  NoDup (each nodes conn tail)
+  /\ (nodes <> [] -> forall x, In x (each nodes conn tail) -> x < List.length nodes)
+  /\ (wf_graph a nodes = true -> List.length (each nodes conn tail) = List.length nodes ->
+      compile_ok a nodes (each nodes conn tail) = true).
+Proof.
+  intros a nodes conn tail. split; [apply each_nodup|]. split; [apply each_range|apply compile_traversal].
+Qed.
+Print Assumptions C01_traversal_partial.
 
 Example C01_compile_correct_witness :
   let nodes := [Node 0 0 0 false 2 (KApply []); Node 1 0 1 true 1 (KTrain (0, 0) (0, 1));
